@@ -93,8 +93,24 @@ pub struct OpCounts {
     pub len: u64,
 }
 
+#[derive(Clone, Copy, Debug, Serialize, Deserialize, PartialEq, Eq, Default)]
+pub enum Backend {
+    /// instrumented in-process backend (journal, faults, yields)
+    #[default]
+    Sim,
+    /// the real random-access-memory crate (kept alive across reopen by an Arc)
+    Memory,
+    /// the real random-access-disk crate on a scratch directory
+    DiskFs,
+}
+
+pub type SharedMem = Arc<async_lock::Mutex<random_access_memory::RandomAccessMemory>>;
+
 #[derive(Debug, Default)]
 pub struct DiskState {
+    pub backend: Backend,
+    pub mem: [Option<SharedMem>; 4],
+    pub dir: Option<std::path::PathBuf>,
     pub files: Files,
     pub journal: Vec<JOp>,
     pub journaling: bool,
@@ -129,7 +145,47 @@ impl Disk {
         }
     }
     pub fn files(&self) -> Files {
-        self.lock().files.clone()
+        let (backend, mem, dir) = {
+            let st = self.lock();
+            (st.backend, st.mem.clone(), st.dir.clone())
+        };
+        match backend {
+            Backend::Sim => self.lock().files.clone(),
+            Backend::Memory => {
+                let mut out: Files = Default::default();
+                for (i, m) in mem.iter().enumerate() {
+                    if let Some(m) = m {
+                        let m = m.clone();
+                        if let crate::exec::Guarded::Done(v) = crate::exec::run(async move {
+                            let mut g = m.lock().await;
+                            let l = g.len().await.unwrap_or(0);
+                            g.read(0, l).await.unwrap_or_default()
+                        }) {
+                            out[i] = v;
+                        }
+                    }
+                }
+                out
+            }
+            Backend::DiskFs => {
+                let mut out: Files = Default::default();
+                if let Some(d) = dir {
+                    for (i, name) in STORE_NAMES.iter().enumerate() {
+                        out[i] = std::fs::read(d.join(name)).unwrap_or_default();
+                    }
+                }
+                out
+            }
+        }
+    }
+    pub fn with_backend(backend: Backend, dir: Option<std::path::PathBuf>) -> Disk {
+        let d = Disk::new();
+        {
+            let mut st = d.lock();
+            st.backend = backend;
+            st.dir = dir;
+        }
+        d
     }
     pub fn set_call(&self, c: u32) {
         self.lock().call = c;
@@ -157,7 +213,31 @@ impl Disk {
                         Store::Bitfield => BITFIELD,
                         Store::Oplog => OPLOG,
                     };
-                    Ok(Box::new(SimFile { disk: d, store: idx }) as Box<dyn StorageTraits + Send>)
+                    let (backend, dir) = {
+                        let st = d.lock();
+                        (st.backend, st.dir.clone())
+                    };
+                    match backend {
+                        Backend::Sim => Ok(Box::new(SimFile { disk: d, store: idx }) as Box<dyn StorageTraits + Send>),
+                        Backend::Memory => {
+                            let inner = {
+                                let mut st = d.lock();
+                                st.mem[idx]
+                                    .get_or_insert_with(|| {
+                                        Arc::new(async_lock::Mutex::new(
+                                            random_access_memory::RandomAccessMemory::default(),
+                                        ))
+                                    })
+                                    .clone()
+                            };
+                            Ok(Box::new(MemFile { inner }) as Box<dyn StorageTraits + Send>)
+                        }
+                        Backend::DiskFs => {
+                            let path = dir.expect("scratch dir").join(STORE_NAMES[idx]);
+                            let f = random_access_disk::RandomAccessDisk::open(path).await?;
+                            Ok(Box::new(f) as Box<dyn StorageTraits + Send>)
+                        }
+                    }
                 });
                 f
             },
@@ -322,4 +402,35 @@ pub fn materialize(journal: &[JOp], k: usize, tear: Option<usize>) -> Files {
         }
     }
     files
+}
+
+/// the real in-memory backend, shared so that it survives close and reopen
+#[derive(Debug)]
+pub struct MemFile {
+    inner: SharedMem,
+}
+
+#[async_trait::async_trait]
+impl RandomAccess for MemFile {
+    async fn write(&mut self, offset: u64, data: &[u8]) -> Result<(), RandomAccessError> {
+        self.inner.lock().await.write(offset, data).await
+    }
+    async fn read(&mut self, offset: u64, length: u64) -> Result<Vec<u8>, RandomAccessError> {
+        self.inner.lock().await.read(offset, length).await
+    }
+    async fn del(&mut self, offset: u64, length: u64) -> Result<(), RandomAccessError> {
+        self.inner.lock().await.del(offset, length).await
+    }
+    async fn truncate(&mut self, length: u64) -> Result<(), RandomAccessError> {
+        self.inner.lock().await.truncate(length).await
+    }
+    async fn len(&mut self) -> Result<u64, RandomAccessError> {
+        self.inner.lock().await.len().await
+    }
+    async fn is_empty(&mut self) -> Result<bool, RandomAccessError> {
+        self.inner.lock().await.is_empty().await
+    }
+    async fn sync_all(&mut self) -> Result<(), RandomAccessError> {
+        self.inner.lock().await.sync_all().await
+    }
 }
